@@ -224,9 +224,10 @@ func slotMustDepend(c *Ctx, s versionSlot, comp string) bool {
 }
 
 func checkC15(c *Ctx, r *Report) {
-	r.Rules = []string{"F14 file name and metadata state the same identity components", "F14 architecture after the same translation, stated plainly", "file name ends in the conventional extension", "W3 file-name side effects are idempotent", "CLI target resolution", "CLI packager inference", "F14-same-expr the same expression on both sides (rpm, apk, archlinux release)", "CLI working directory unchanged while the target is resolved"}
+	r.Rules = []string{"F14 file name and metadata state the same identity components", "F14 architecture after the same translation, stated plainly", "file name ends in the conventional extension", "W3 file-name side effects are idempotent", "CLI target resolution", "CLI packager inference", "F14-same-expr the same expression on both sides (rpm, apk, archlinux release)", "CLI working directory unchanged while the target is resolved", "same-F13-plain the control template's Version line applies no helper the file name does not (imported from C14)"}
 	r.Explanation = "Agreement and structure rules over go/ssa and the parsed templates. (F14) per packager and per identity component (name, version, prerelease, version metadata, release, architecture) the conventional file name depends on the component on every live path (abstract evaluation with the component fixed non-empty, intersection of provenance at joins) exactly when the inner metadata states it (control template rows / rpm metadata fields / .PKGINFO keys, the same way); both ConventionalFileName and Package apply the same architecture translation before anything reads the architecture, and the metadata's architecture derives from the translated architecture alone; the file name's format ends in the packager's ConventionalExtension constant; the writes ConventionalFileName performs on the Info are idempotent (C11-W3). (CLI) in doPackage the path handed to os.Create is the phi of the given target, the conventional name (on the target-empty edge) and path.Join(target, conventional name) (on the is-a-directory edge); Info.Target receives the same value; the packager is taken from the target's extension only on the packager-empty edge."
 	r.Explanation += " (F14-same-expr) rpm: name, version, release and architecture in the file name are the expressions written to the metadata; apk: the template's pkgver function; archlinux: the release expression. The command changes the working directory nowhere on its packaging path."
+	r.Explanation += " (same-F13-plain) imported from C14: a helper applied to a version component on the template's Version line only makes file name and metadata disagree."
 	r.Assumptions = []string{"concrete strings are not computed; 'depends on' is provenance, not equality of rendered text"}
 	for _, pk := range c.Packagers {
 		if pk.Format == "" {
@@ -302,6 +303,10 @@ func checkC15(c *Ctx, r *Report) {
 	}
 	// same expression on both sides where the code composes both (rpm, apk)
 	checkSameVersionExpr(c, r)
+	// the file name takes the version components as configured; so must the
+	// control template (a helper applied on the Version line only - a
+	// sanitiser, say - makes the two disagree; shared with C14)
+	r.Floor("same-F13-plain", importRules(c, r, checkC14, "same-", []string{"F13-plain"}, nil), 2)
 	// W3 (shared with C11)
 	tmp := newReport("tmp")
 	checkPackagerStores(c, tmp)
